@@ -32,6 +32,12 @@ pub fn curve_vector(c: &arrival::Curve) -> Vec<u64> {
     out
 }
 
+/// The largest recorded minimum distance of a `Curve` through the public API (`min_distance`
+/// clamps its argument to the recorded range); `None` for a curve without any entry.
+pub fn largest_distance(c: &arrival::Curve) -> Option<u64> {
+    guarded(|| du(c.min_distance(usize::MAX)))
+}
+
 #[derive(Clone, Debug, PartialEq, Eq)]
 pub enum Derivation {
     FromArrivalBound(usize),
@@ -71,8 +77,7 @@ pub fn derive(src: &ArrDesc, how: &Derivation) -> Option<(Box<dyn ArrivalBound>,
     match how {
         Derivation::FromArrivalBound(n) => {
             let c = arrival::Curve::from_arrival_bound(&ab, *n);
-            let v = curve_vector(&c);
-            let cov = *v.last()?;
+            let cov = largest_distance(&c)?;
             if cov == 0 {
                 // the requested prefix covers only simultaneous arrivals: an all-zero delta-min
                 // vector describes an unbounded burst, for which the library documents no meaning
@@ -82,8 +87,7 @@ pub fn derive(src: &ArrDesc, how: &Derivation) -> Option<(Box<dyn ArrivalBound>,
         }
         Derivation::FromArrivalBoundUntil(h) => {
             let c = arrival::Curve::from_arrival_bound_until(&ab, d(*h));
-            let v = curve_vector(&c);
-            let cov = *v.last()?;
+            let cov = largest_distance(&c)?;
             if cov == 0 {
                 return None;
             }
@@ -103,8 +107,7 @@ pub fn derive(src: &ArrDesc, how: &Derivation) -> Option<(Box<dyn ArrivalBound>,
                 }
                 _ => return None,
             };
-            let v = curve_vector(&c);
-            let cov = *v.last()?;
+            let cov = largest_distance(&c)?;
             Some((Box::new(c), cov))
         }
         Derivation::PrefixUntil(h) => {
